@@ -493,9 +493,32 @@ fn s_doc() -> proptest::strategy::SBoxedStrategy<Value> {
     // documents that *spell* a well-formed identifier without being a JSON string: its bytes / code
     // points as an array of numbers, its characters as an array of one-character strings, the string
     // wrapped in an array / object (a deserialiser that asks for bytes, a sequence or "any" takes them)
-    let spelled = (gen::s_langid_bytes(), 0u8..6).prop_map(|(b, k)| {
+    let spelled = (gen::s_langid_bytes(), 0u8..9).prop_map(|(b, k)| {
         let t = String::from_utf8_lossy(&b).to_string();
+        // the identifier taken apart into an object / array of its fields (a "structured" form)
+        let parts = || -> (String, Option<String>, Option<String>, Vec<String>) {
+            let toks: Vec<String> = t.split(|c| c == '-' || c == '_').map(|s| s.to_string()).collect();
+            let mut it = toks.into_iter();
+            let lang = it.next().unwrap_or_default();
+            let rest: Vec<String> = it.collect();
+            let script = rest.iter().find(|x| x.len() == 4 && x.chars().all(|c| c.is_ascii_alphabetic())).cloned();
+            let region = rest.iter().find(|x| (x.len() == 2 && x.chars().all(|c| c.is_ascii_alphabetic())) || (x.len() == 3 && x.chars().all(|c| c.is_ascii_digit()))).cloned();
+            let variants: Vec<String> = rest.iter().filter(|x| Some(*x) != script.as_ref() && Some(*x) != region.as_ref()).rev().cloned().collect();
+            (lang, script, region, variants)
+        };
         match k {
+            6 => {
+                let (l, s, r, v) = parts();
+                json!({"language": l, "script": s, "region": r, "variants": v})
+            }
+            7 => {
+                let (l, s, r, v) = parts();
+                json!([l, s, r, v])
+            }
+            8 => {
+                let (l, s, r, v) = parts();
+                json!({"lang": l, "script": s, "region": r, "variants": v, "language": l, "id": t})
+            }
             0 => Value::Array(t.bytes().map(|c| json!(c)).collect()),
             1 => Value::Array(t.chars().map(|c| json!(c as u32)).collect()),
             2 => Value::Array(t.chars().map(|c| json!(c.to_string())).collect()),
